@@ -3,6 +3,7 @@
 //  "obs": 2 observables, 3 observer slots; reference model = one pending flag per observer.
 //  "ts" : 3 TimeStamp slots on one thread; fresh/renewed values strictly increasing (hence distinct),
 //         copies carry their source's value.
+#include <thread>
 #include "C10_seqmc.h"
 
 #include "rkcommon/utility/Observer.h"
@@ -51,8 +52,11 @@ struct ObsSys
     for (int k = 0; k < 2; k++)
       ops.push_back(Op{RECREATE_OBSERVABLE, k, 0, "o" + S(k), "create observable"});
   }
-  const char *sysname() const { return "Observer"; }
-  const char *tag() const { return "obs"; }
+  // "obsx": the same histories with every second operation executed on a thread of its own (started and joined
+  // inside the step): nothing runs concurrently, but who notified and who polls are different threads
+  bool xthread = false;
+  const char *sysname() const { return xthread ? "Observer (operations on alternating threads)" : "Observer"; }
+  const char *tag() const { return xthread ? "obsx" : "obs"; }
   Model initial() const { return Model(); }
   int nops() const { return (int)ops.size(); }
   const std::string &opname(int op) const { return ops[op].name; }
@@ -131,6 +135,7 @@ struct ObsSys
     Model model;
     Observable *obs[2];
     Observer *obr[3] = {nullptr, nullptr, nullptr};
+    int nsteps = 0;
     Run(const ObsSys &s, sq::Ctx &c) : sys(s), ctx(c)
     {
       obs[0] = new Observable();
@@ -148,28 +153,35 @@ struct ObsSys
       Model before = model;
       int want = sys.apply(model, op);
       int got = -1;
-      switch (o.kind) {
-      case CREATE:
-        obr[o.a] = new Observer(*obs[o.b]);
-        break;
-      case NOTIFY:
-        obs[o.a]->notifyObservers();
-        break;
-      case POLL:
-        got = obr[o.a]->wasNotified() ? 1 : 0;
-        break;
-      case DESTROY_OBSERVER:
-        delete obr[o.a];
-        obr[o.a] = nullptr;
-        break;
-      case DESTROY_OBSERVABLE:
-        delete obs[o.a];
-        obs[o.a] = nullptr;
-        break;
-      case RECREATE_OBSERVABLE:
-        obs[o.a] = new Observable();
-        break;
-      }
+      auto perform = [&]() {
+        switch (o.kind) {
+        case CREATE:
+          obr[o.a] = new Observer(*obs[o.b]);
+          break;
+        case NOTIFY:
+          obs[o.a]->notifyObservers();
+          break;
+        case POLL:
+          got = obr[o.a]->wasNotified() ? 1 : 0;
+          break;
+        case DESTROY_OBSERVER:
+          delete obr[o.a];
+          obr[o.a] = nullptr;
+          break;
+        case DESTROY_OBSERVABLE:
+          delete obs[o.a];
+          obs[o.a] = nullptr;
+          break;
+        case RECREATE_OBSERVABLE:
+          obs[o.a] = new Observable();
+          break;
+        }
+      };
+      if (sys.xthread && (nsteps++ & 1)) {
+        std::thread t(perform);
+        t.join();
+      } else
+        perform();
       if (got != want) {
         ctx.viol(std::string("wasNotified|") + (got ? "true" : "false") + " although " + state_class(before, o.a),
             "observer " + S(o.a) + " returned " + (got ? "true" : "false") + " want " + (want ? "true" : "false") + "; reference before the poll: " + show(before));
@@ -396,7 +408,8 @@ static std::string arg_str(int argc, char **argv, const char *name, const std::s
 int main(int argc, char **argv)
 {
   vr::init(argc, argv);
-  ObsSys obs;
+  ObsSys obs, obsx;
+  obsx.xthread = true;
   TsSys ts;
   if (vr::replaying()) {
     sq::replay_symbolized(argv);
@@ -405,6 +418,8 @@ int main(int argc, char **argv)
     std::string tag = r.substr(0, c), hist = c == std::string::npos ? "" : r.substr(c + 1);
     if (tag == obs.tag())
       return sq::Explorer<ObsSys>(obs, 0).replay(hist);
+    if (tag == obsx.tag())
+      return sq::Explorer<ObsSys>(obsx, 0).replay(hist);
     if (tag == ts.tag())
       return sq::Explorer<TsSys>(ts, 0).replay(hist);
     printf("unknown replay tag '%s'\n", tag.c_str());
@@ -415,6 +430,8 @@ int main(int argc, char **argv)
   const std::string only = arg_str(argc, argv, "--only", "");
   if (only.empty() || only == obs.tag())
     sq::Explorer<ObsSys>(obs, depth, 128).explore();
+  if (only.empty() || only == obsx.tag())
+    sq::Explorer<ObsSys>(obsx, depth - 2, 128).explore();
   if (only.empty() || only == ts.tag())
     sq::Explorer<TsSys>(ts, tsdepth, 128).explore();
   return vr::finish();
